@@ -70,6 +70,11 @@ def case(ctx, i, rec):
     rng = ctx.rng(i)
     if i % 5 == 0:
         ts, r = hostile(rng)
+    elif i % 5 == 2:
+        # larger trees: internal nodes whose children are all internal, heavy loads so that
+        # a small cap binds on parent and child differently
+        ts, r = zoo.sim(rng, n=int(rng.integers(12, 40)), L=1e3, rec=0.0 if rng.random() < 0.5 else None,
+                        mut_per_edge=float(rng.choice([5.0, 50.0, 300.0])))
     elif i % 5 == 1:
         ts, r = zoo.sim(rng, ploidy=2, n=int(rng.integers(2, 7)))
     else:
@@ -77,7 +82,9 @@ def case(ctx, i, rec):
     kw = {"mutation_rate": common.default_mu(ts, r), "return_fit": True}
     kw["max_shape"] = float(rng.choice([1.001, 2.0, 10.0, 1000.0, 1000.0, 1e6]))
     kw["max_iterations"] = int(rng.choice([1, 2, 5, 25, 25, 100]))
-    kw["rescaling_intervals"] = [0, 1, 3, 10, None][int(rng.integers(5))]
+    kw["rescaling_intervals"] = [0, 0, 1, 3, 10, None][int(rng.integers(6))]
+    if i % 5 == 2:
+        kw["max_shape"] = float(rng.choice([2.0, 4.0, 10.0, 25.0, 100.0]))
     if rng.random() < 0.3:
         kw["match_segregating_sites"] = True
     if rng.random() < 0.2:
